@@ -41,6 +41,8 @@ def gen(ctx):
         s = c20.gen_pull(ctx.rng) if ctx.rng.random() < 0.6 else sc.gen_dag(ctx.rng, kinds=["scale", "lin", "prev", "dfix"])
         s["ring"] = {"resolved": True, "mode": "acyclic"}
         return s
+    if ctx.rng.random() < 0.08:
+        return sc.gen_pull_ring(ctx.rng)
     return sc.gen_ring(ctx.rng, resolved=ctx.rng.random() < 0.6)
 
 
